@@ -31,7 +31,14 @@ FAULTS = [
     "none", "truncate", "truncate_boundary", "flip_bit", "set_byte", "add_byte", "int_field", "u32_field", "delete_range", "dup_range",
     "swap_ranges", "zero_fill", "splice_same", "splice_other", "append_garbage", "empty", "whitespace", "random_bytes", "token_soup",
     "side_missing", "side_truncated", "side_swapped", "stream_eio", "stream_eof", "stream_closed", "multi_flip", "len_field", "many_lines_one_long",
+    "token_copy", "json_field", "container_inner",
 ]
+CONTAINERS = {"3mf", "glb", "zip_stl", "zip_ply", "zip_glb", "zip_obj_mtl", "targz_obj"}
+TEXTUAL = {"gltf", "dae", "svg", "dxf", "obj", "obj_mtl", "off", "ply_ascii", "stl_ascii", "dict", "dict64", "xyz"}
+INNER_KINDS = ["token_copy", "token_copy", "token_copy", "token_copy", "json_field", "int_field", "flip_bit", "truncate", "delete_range", "dup_range", "set_byte", "zero_fill"]
+# keys a glTF / JSON document may legally carry that trimesh's own exporter never writes, and values worth trying in any numeric slot
+JSON_KEYS = ["byteStride", "byteOffset", "byteLength", "count", "componentType", "type", "normalized", "sparse", "mode", "indices", "mesh", "children", "matrix", "scale", "rotation", "translation", "bufferView", "buffer", "target", "min", "max", "uri", "source", "sampler", "index", "texCoord", "extras", "camera", "skin", "weights", "POSITION", "NORMAL", "COLOR_0", "TEXCOORD_0"]
+JSON_VALUES = [0, 1, -1, 2, 3, 4, 12, 16, 92, 255, 256, 5120, 5121, 5123, 5125, 5126, 65535, 65536, 2**31 - 1, 2**31, 2**32, 12000000000000, 10**18, 0.5, -0.0, 1e308, "VEC3", "SCALAR", "MAT4", "", None, True, [], [0], [0, 0], {}, [1e30] * 16]
 SOUP = {
     "stl": [b"solid", b"facet normal 0 0 1", b"outer loop", b"vertex 0 0 0", b"endloop", b"endfacet", b"endsolid", b"\n", b" 1e309 ", b"nan"],
     "ply": [b"ply\n", b"format ascii 1.0\n", b"format binary_little_endian 1.0\n", b"element vertex 3\n", b"element face 999999999\n", b"property float x\n", b"property list uchar int vertex_indices\n", b"end_header\n", b"0 0 0\n", b"3 0 1 2\n"],
@@ -77,6 +84,12 @@ def apply_fault(data, f, other=b""):
         return b"".join(r.choice(toks) for _ in range(1 + f.get("n", 10) % 60))
     if n == 0:
         return data
+    if k == "token_copy":
+        return token_copy(data, f)
+    if k == "json_field":
+        return json_field(data, f)
+    if k == "container_inner":
+        return container_inner(data, f, other)
     if k in ("truncate", "truncate_boundary"):
         return data[: f["at"] % (n + 1)]
     b = bytearray(data)
@@ -149,6 +162,170 @@ def apply_fault(data, f, other=b""):
     elif k == "append_garbage":
         return bytes(b) + bytes(np.random.RandomState(f["salt"] % (2**32)).randint(0, 256, 1 + f.get("n", 16) % 300, dtype=np.uint8).tolist())
     return bytes(b)
+
+
+_TOKEN = re.compile(rb'"[^"\n<>]{0,48}"|(?<![\w.])-?\d+(?:\.\d+)?(?:[eE][+-]?\d+)?(?![\w.])')
+
+
+_REFKEY = re.compile(rb'([A-Za-z_:]+)["\']?\s*[=:]\s*\[?\s*$')
+_REFWORDS = (b"id", b"ref", b"index", b"indices", b"source", b"target", b"mesh", b"node", b"child", b"view", b"buffer", b"accessor", b"material", b"parent", b"url", b"href", b"count", b"stride", b"offset", b"size", b"length", b"type", b"scene", b"texture", b"sampler", b"image", b"position", b"normal")
+
+
+def _is_reference(data, t):
+    m = _REFKEY.search(data[max(0, t.start() - 28) : t.start()])
+    if not m:
+        return False
+    key = m.group(1).lower()
+    return any(w in key for w in _REFWORDS)
+
+
+def token_copy(data, f):
+    """Copy one quoted string / number of a text payload over another of the same class: re-wires ids, references, indexes and counts
+    (an XML component pointing at its own object, an accessor pointing at another buffer view) while the syntax stays valid.
+    Half of the time both ends are values of reference-like attributes / keys (id, objectid, bufferView, count, source ...)."""
+    toks = list(_TOKEN.finditer(data[:131072]))
+    if len(toks) < 2:
+        return data
+    r = _random.Random(f["salt"])
+    u = r.random()
+    if u < 0.6:
+        refs = [t for t in toks if _is_reference(data, t)]
+        if len(refs) >= 2:
+            toks = refs
+            if u < 0.2:
+                # reference cycle: a reference takes the id of the element that encloses / precedes it
+                ids = [t for t in refs if re.search(rb'(?<![A-Za-z])id["\']?\s*[=:]\s*$', data[max(0, t.start() - 8) : t.start()].lower())]
+                others = [t for t in refs if t not in ids]
+                if ids and others:
+                    dst = others[r.randrange(len(others))]
+                    before = [t for t in ids if t.start() < dst.start()]
+                    if before and before[-1].group() != dst.group():
+                        return data[: dst.start()] + before[-1].group() + data[dst.end():]
+    for _ in range(8):
+        dst = toks[r.randrange(len(toks))]
+        quoted = dst.group()[:1] == b'"'
+        same = [t for t in toks if (t.group()[:1] == b'"') == quoted and t.group() != dst.group()]
+        if not same:
+            continue
+        # prefer a nearby source (the same element family) half of the time
+        near = [t for t in same if abs(t.start() - dst.start()) < 400]
+        src = r.choice(near) if near and r.random() < 0.5 else r.choice(same)
+        return data[: dst.start()] + src.group() + data[dst.end():]
+    return data
+
+
+def json_field(data, f):
+    """Parse a JSON document (or the JSON chunk of a GLB), change one numeric leaf or add one legal-but-never-exported key, re-serialise."""
+    if data[:4] == b"glTF":
+        return container_inner(data, dict(f, inner=dict(f, kind="json_field")), b"")
+    import json
+
+    try:
+        doc = json.loads(data.decode("utf-8"))
+    except Exception:
+        return data
+    r = _random.Random(f["salt"])
+    dicts, leaves = [], []
+
+    def walk(x):
+        if isinstance(x, dict):
+            dicts.append(x)
+            for k in sorted(x):
+                if isinstance(x[k], (int, float)) and not isinstance(x[k], bool):
+                    leaves.append((x, k))
+                walk(x[k])
+        elif isinstance(x, list):
+            for i, v in enumerate(x):
+                if isinstance(v, (int, float)) and not isinstance(v, bool) and len(x) <= 16:
+                    leaves.append((x, i))
+                walk(v)
+
+    walk(doc)
+    u = r.random()
+    layout = [d for key in ("bufferViews", "accessors", "buffers", "images") for d in (doc.get(key) or []) if isinstance(d, dict)] if isinstance(doc, dict) else []
+    if layout and r.random() < 0.5:
+        # the JSON of a glTF describes a binary layout: set one layout field of one buffer view / accessor, written before or not
+        d = layout[r.randrange(len(layout))]
+        key = r.choice(["byteStride", "byteStride", "byteStride", "byteOffset", "byteLength", "count", "componentType", "type", "bufferView", "buffer", "normalized", "sparse"])
+        old = d.get(key)
+        vals = JSON_VALUES + ([old + 1, old - 1, old * 2, old * 80, old * 1000] if isinstance(old, (int, float)) and not isinstance(old, bool) else [])
+        d[key] = r.choice(vals)
+    elif leaves and u < 0.6:
+        c, k = leaves[r.randrange(len(leaves))]
+        old = c[k]
+        c[k] = r.choice(JSON_VALUES[:23] + [old + 1, old - 1, old * 2, old * 1000, -old, old + 0.5])
+    elif dicts:
+        d = dicts[r.randrange(len(dicts))]
+        if d and u < 0.8:
+            del d[sorted(d)[r.randrange(len(d))]]
+        else:
+            d[r.choice(JSON_KEYS)] = r.choice(JSON_VALUES)
+    try:
+        return json.dumps(doc).encode("utf-8")
+    except Exception:
+        return data
+
+
+def container_inner(data, f, other=b""):
+    """Valid container, corrupt content: apply a fault to one member of a zip / 3MF / tar.gz archive or to the JSON chunk of a GLB and
+    re-pack with correct sizes and checksums, so the fault reaches the parser behind the decompressor."""
+    import io
+
+    inner = dict(f.get("inner") or dict(f, kind="token_copy"))
+    if inner.get("kind") == "container_inner":
+        inner["kind"] = "token_copy"
+    if data[:4] == b"glTF" and len(data) >= 20:
+        if inner.get("salt", 0) % 2:
+            inner["kind"] = "json_field"  # the chunk is a JSON document: mutate it as one half of the time
+        jl = int.from_bytes(data[12:16], "little")
+        if data[16:20] != b"JSON" or 20 + jl > len(data):
+            return data
+        chunk = apply_fault(data[20 : 20 + jl].rstrip(b" "), inner, b"")
+        chunk += b" " * (-len(chunk) % 4)
+        rest = data[20 + jl :]
+        total = 20 + len(chunk) + len(rest)
+        return b"glTF" + data[4:8] + total.to_bytes(4, "little") + len(chunk).to_bytes(4, "little") + b"JSON" + chunk + rest
+    if data[:2] == b"PK":
+        import zipfile
+
+        try:
+            with zipfile.ZipFile(io.BytesIO(data)) as z:
+                members = [(i.filename, z.read(i.filename)) for i in z.infolist()]
+        except Exception:
+            return data
+        if not members:
+            return data
+        # the largest members carry the model: choose among them more often
+        order = sorted(range(len(members)), key=lambda i: -len(members[i][1]))
+        j = order[0] if f.get("j", 0) % 3 else order[f.get("j", 0) % len(order)]
+        members[j] = (members[j][0], apply_fault(members[j][1], inner, b""))
+        buf = io.BytesIO()
+        with zipfile.ZipFile(buf, "w", zipfile.ZIP_DEFLATED) as z:
+            for name, b in members:
+                z.writestr(zipfile.ZipInfo(name, date_time=(2020, 1, 1, 0, 0, 0)), b, compress_type=zipfile.ZIP_DEFLATED)
+        return buf.getvalue()
+    if data[:2] == b"\x1f\x8b":
+        import gzip
+        import tarfile
+
+        try:
+            raw = gzip.decompress(data)
+            with tarfile.open(fileobj=io.BytesIO(raw)) as t:
+                members = [(m.name, t.extractfile(m).read()) for m in t.getmembers() if m.isfile()]
+        except Exception:
+            return data
+        if not members:
+            return data
+        j = f.get("j", 0) % len(members)
+        members[j] = (members[j][0], apply_fault(members[j][1], inner, b""))
+        buf = io.BytesIO()
+        with tarfile.open(fileobj=buf, mode="w") as t:
+            for name, b in members:
+                info = tarfile.TarInfo(name)
+                info.size = len(b)
+                t.addfile(info, io.BytesIO(b))
+        return gzip.compress(buf.getvalue(), mtime=0)
+    return data
 
 
 def length_fields(data, ft):
@@ -286,6 +463,10 @@ class C20(World):
             f["lval"] = rng.choice(["x10", "x1000", "two32", "two31", "neg", "zero", "one_more", "one_less", "huge", "bit31", "bit31", "bit30", "bit28", "top7f", "top7f", "bit24"])
         if kind.startswith("stream_"):
             f["n"] = rng.choice([1, 1, 2, 3, 5, 9])
+        if kind == "container_inner":
+            ik = rng.choice(INNER_KINDS)
+            f["inner"] = {"kind": ik, "salt": rng.randrange(2**31), "at": rng.randrange(2**16), "a": rng.randrange(2**16), "b": rng.randrange(2**16), "bit": rng.randrange(8), "j": rng.randrange(40),
+                          "val": rng.choice(["x10", "x1000", "two32", "two31", "neg", "zero", "one_more", "one_less", "huge"]) if ik == "int_field" else rng.randrange(256)}
         return f
 
     def generate(self, rng, cfg):
@@ -297,6 +478,12 @@ class C20(World):
         ops = [{"op": "payload", "geom": geom, "other": other, "rs": rng.randrange(2**31)}]
         for _ in range(cfg["n_attempts"]):
             kind = pick(rng, cfg["weights"])
+            u = rng.random()
+            if cfg["fmt"] in CONTAINERS and u < 0.35:
+                # byte faults on a compressed container mostly end at the checksum: reach the parser behind it
+                kind = "container_inner"
+            elif cfg["fmt"] in TEXTUAL and u < 0.12:
+                kind = "token_copy" if u < 0.08 else "json_field"
             ops.append({"op": "attempt", "fault": self._gen_fault(rng, kind, cfg["fmt"]), "route": rng.choice(cfg["routes"]), "transport": rng.choice(["bytesio", "simfile", "path"]), "rs": rng.randrange(2**31)})
         ops.append({"op": "valid_after", "rs": rng.randrange(2**31)})
         return {"config": cfg, "ops": ops}
